@@ -73,7 +73,13 @@ def check(inp):
     return None
 
 
-EDGE = ["", " ", "\t\n", ";", "()", "+", "int", "int f(", "void f(int a = ", "void f(const char *s = \"abc)",
+# literal spellings the tokenizer may or may not accept (hexadecimal, binary, suffixes, digit separators, exponents) in
+# every position where the parser converts a token itself (default values, +rank= / +value= / +len=, array sizes, enum values)
+LITS = ["0x10", "0X1F", "0b101", "10u", "10L", "1'000", "1e3", "0x", "1.5f", "08", "1_000", ".5", "5.", "0x1p3"]
+LIT_SITES = ["void foo(int a = %s)", "int flags = %s", "void f(int a +rank=%s)", "void f(int a +value=%s)", "void f(int *a +rank(%s))",
+             "void f(char *a +len=%s)", "void f(int a[%s])", "enum E { A = %s, B }", "void f(double x = %s, int n = %s)",
+             "void f(int *a +dimension(%s))", "void f(int a = -%s)", "void f(int a = (%s))"]
+EDGE = [site.replace("%s", lit) for site in LIT_SITES for lit in LITS] + ["", " ", "\t\n", ";", "()", "+", "int", "int f(", "void f(int a = ", "void f(const char *s = \"abc)",
         "void setTitle(const char *title = \"Temperature at the outflow boundary [K])",
         "void setUnit(const char *unit = 'degrees Kelvin at the outflow boundary, not Celsius)",
         "void f(const char *s = \"" + "x" * 60, "void f(int a +name('" + "y" * 60 + ")",
